@@ -1,14 +1,37 @@
-import IpcModel.Async
+import IpcModel.Lemmas.AsyncProof
 /-!
 # C20 — a receiver turned into an async stream yields the same messages, then ends
 
-Model `Async`: the routing thread of `asynch.rs` as a pure processor of `select()` batches (id → stream map; routes
-offered meanwhile are registered after each batch); `futures::mpsc` unbounded channels as FIFO buffers with an `ended`
-flag.  One-step theorems (the end-to-end statement over whole histories — `C20_forward` — is **partial**: these are its
-inductive steps; the real `to_stream` is exercised by the harness with many streams and threads).
+Model `Async`: the routing thread of `asynch.rs` as a processor of `select()` batches over an id → stream map; routes
+offered by `to_stream` are registered after each batch; `futures::mpsc` unbounded channels are FIFO buffers with an `ended`
+flag (end-of-stream once the forwarding sender is dropped and the buffer is drained).
+
+`C20_forward` is the end-to-end statement over **whole histories** (any sequence of batches and offers, any other traffic);
+the events of one id are what the receiver set reports for that member (C06: its messages in order, then one closure).
+Not reached by a theorem: waker delivery inside `futures` (exercised with a counting waker) and the receiver-set contract
+itself (C06).
 -/
 namespace C20
 open Async
+
+/-- **C20_forward** — for every history of routing-thread iterations and `to_stream` offers, the stream registered for a
+receiver-set id ends up with exactly that id's messages, in order, once each, and is ended exactly when the id's closure
+was reported; events of other ids, registrations and offers never touch it (isolation). -/
+theorem C20_forward (acts : List Act) {st : St} (hi : Inv st) {id s : Nat} (b : List Nat)
+    (hl : lookup st.senders id = some s) (hb : bufOf st s = some (b, false)) :
+    bufOf (acts.foldl act st) s = some (b ++ (proj id (allEvents acts)).1, (proj id (allEvents acts)).2) :=
+  forward_run acts hi b hl hb
+
+/-- **C20_registration** — a route offered by `to_stream` is registered by the next iteration, under a fresh id, with an
+empty open stream; together with `C20_forward` nothing reported for that member afterwards can be missed. -/
+theorem C20_registration {st : St} (hi : Inv st) (evs : List Ev) (hp : st.pending = []) :
+    ∃ id, lookup (act (act st .offer) (.batch evs)).senders id = some st.streams.length ∧
+      bufOf (act (act st .offer) (.batch evs)) st.streams.length = some ([], false) :=
+  offer_registered hi evs hp
+
+/-- the invariant holds initially and is preserved by every iteration and offer -/
+theorem C20_inv_init : Inv ⟨[], 1, [], []⟩ := ⟨by simp, by simp, by simp, by simp, by simp, by simp⟩
+theorem C20_inv_step {st : St} (hi : Inv st) (a : Act) : Inv (act st a) := inv_act hi a
 
 theorem C20_msg_forward (st : St) (id tag s : Nat) (h : lookup st.senders id = some s) :
     (onEv st (.msg id tag)).streams = push st.streams s tag ∧ (onEv st (.msg id tag)).senders = st.senders :=
@@ -23,5 +46,18 @@ theorem C20_closed_ends (st : St) (id s : Nat) (x : Stream) (h : lookup st.sende
 
 theorem C20_unknown_ignored (st : St) (id tag : Nat) (h : lookup st.senders id = none) : onEv st (.msg id tag) = st :=
   unknown_ignored st id tag h
+
+/-! non-vacuity: two streams offered, traffic interleaved with a wake-up (id 0) and the other stream's events -/
+example : bufOf ([Act.offer, .offer, .batch [.msg 0 0], .batch [.msg 1 5, .msg 2 9, .msg 0 0, .msg 1 6], .batch [.closed 1, .msg 2 10]].foldl act ⟨[], 1, [], []⟩) 0
+    = some ([5, 6], true) := by decide
+example : bufOf ([Act.offer, .offer, .batch [.msg 0 0], .batch [.msg 1 5, .msg 2 9, .msg 0 0, .msg 1 6], .batch [.closed 1, .msg 2 10]].foldl act ⟨[], 1, [], []⟩) 1
+    = some ([9, 10], false) := by decide
+
+/-! sensitivity: a routing thread that registers only one offered route per iteration leaves the second stream without
+a registration — nothing sent on its channel would ever reach it -/
+def drainOne (st : St) : St := match st.pending with
+  | [] => st
+  | p :: rest => { st with senders := st.senders ++ [(st.nextId, p)], nextId := st.nextId + 1, pending := rest }
+example : (drainOne ([Act.offer, .offer].foldl act ⟨[], 1, [], []⟩)).pending = [1] := by decide
 
 end C20
